@@ -21,6 +21,7 @@ UNITS_OF = {
     "C18": ["owner"],
     "C19": ["envdl"],
     "C16": ["hash"],
+    "C20": ["iter", "fixed_vector"],
 }
 
 
